@@ -30,6 +30,18 @@ type codeErr struct{ code int }
 
 func (e *codeErr) Error() string { return fmt.Sprintf("scripted error %d", e.code) }
 
+// Unwrap makes some scripted errors wrap a context error (errors.Is(err, context.Canceled) holds for them although
+// they did not come from any context of the scenario): the library must report such an error like any other.
+func (e *codeErr) Unwrap() error {
+	switch e.code % 3 {
+	case 0:
+		return context.Canceled
+	case 1:
+		return context.DeadlineExceeded
+	}
+	return nil
+}
+
 func errCodeOf(err error) int {
 	var ce *codeErr
 	switch {
